@@ -52,10 +52,11 @@ var fields = map[LT]map[string]fld{
 		"VestingSchedules": {"%s.schedules", "List VS"}, "Auctioneer": {"%s.auctioneer", "Acc"},
 		"Id": {"(%s.id : Int)", "Int"},
 	},
-	"Keeper": {"Keeper": {"%s", "Keeper"}},
-	"Params": {"ExtendedPeriod": {"(%s.period : Int)", "Int"}},
-	"MInfo":  {"MatchedLen": {"%s.matchedLen", "Int"}, "MatchedPrice": {"%s.price", "Dec"}, "TotalMatchedAmount": {"%s.total", "Int"}},
-	"VS":     {"ReleaseTime": {"%s.release", "Time"}, "Weight": {"%s.weight", "Dec"}},
+	"Keeper":          {"Keeper": {"%s", "Keeper"}},
+	"Params":          {"ExtendedPeriod": {"(%s.period : Int)", "Int"}, "AuctionCreationFee": {"%s.creationFee", "Coins"}, "PlaceBidFee": {"%s.bidFee", "Coins"}},
+	"UpdateParamsMsg": {"Authority": {"%s.signer", "Acc"}, "Params": {"%s.params", "Params"}},
+	"MInfo":           {"MatchedLen": {"%s.matchedLen", "Int"}, "MatchedPrice": {"%s.price", "Dec"}, "TotalMatchedAmount": {"%s.total", "Int"}},
+	"VS":              {"ReleaseTime": {"%s.release", "Time"}, "Weight": {"%s.weight", "Dec"}},
 	"VQ": {"ReleaseTime": {"%s.release", "Time"}, "Released": {"%s.released", "Bool"}, "PayingCoin": {"(Go.vqCoin %s)", "Coin"},
 		"AuctionId": {"(%s.auction : Int)", "Int"}},
 	"Allowed": {"Bidder": {"%s.bidder", "Acc"}, "MaxBidAmount": {"%s.cap", "Int"}},
@@ -106,6 +107,9 @@ var setters = map[string]fld{
 	"MInfoG.AllocationMap":         {"{ %1 with alloc := %2 }", "Map Acc Int"},
 	"MInfoG.TotalMatchedAmount":    {"{ %1 with total := %2 }", "Int"},
 	"MInfoG.MatchedLen":            {"{ %1 with matchedLen := %2 }", "Int"},
+	"MInfoG.MatchedPrice":          {"{ %1 with price := %2 }", "Dec"},
+	"MInfoG.ReservedMatchedMap":    {"{ %1 with reservedMatched := %2 }", "Map Acc Int"},
+	"MInfoG.RefundMap":             {"{ %1 with refund := %2 }", "Map Acc Int"},
 }
 
 func cmp(op string) fnSpec {
@@ -172,6 +176,7 @@ func init() {
 	methods["AllowedArg.GetBidder"] = fnSpec{L: "(%1.bidder, !validAcc %1.bidder)", T: "(Acc × Err)", Arity: 1}
 	methods["Acc.Equals"] = fnSpec{L: "decide (%1 = %2)", T: "Bool", Arity: 2, Args: []LT{"Acc", "Acc"}}
 	methods["Acc.String"] = fnSpec{L: "%1", T: "Acc", Arity: 1}
+	methods["Coins.Validate"] = fnSpec{L: "(!validCoins %1)", T: "Err", Arity: 1}
 	methods["Addr.String"] = fnSpec{L: "%1", T: "Addr", Arity: 1}
 	methods["Bal.AmountOf"] = fnSpec{L: "(%1 %2)", T: "Int", Arity: 2, Args: []LT{"Bal", "Denom"}}
 	methods["CreateMsg.GetAuctioneer"] = fnSpec{L: "%1.auctioneer", T: "Acc", Arity: 1}
@@ -243,6 +248,7 @@ var composites = map[string]compositeSpec{
 	"VestingQueue": {T: "VQ", Fields: map[string]string{"AuctionId": "auction := (%s).toNat", "Auctioneer": "auctioneer := %s",
 		"PayingCoin": "denom := (%s).denom, amt := (%s).amt", "ReleaseTime": "release := %s", "Released": "released := %s"}},
 	"BidderMatchResult": {T: "BRes", Fields: map[string]string{"PayingAmount": "pay := %s", "MatchedAmount": "matched := %s"}},
+	"LegacyDec":         {T: "Dec", Fields: map[string]string{}},
 	"MatchResult": {T: "MState", Fields: map[string]string{"MatchPrice": "price := %s", "MatchedAmount": "total := %s",
 		"MatchedBids": "matched := %s", "MatchResultByBidder": "byBidder := %s"}},
 	"MatchingInfo": {T: "MInfoG", Fields: map[string]string{"MatchedPrice": "price := %s", "TotalMatchedAmount": "total := %s", "MatchedLen": "matchedLen := %s",
@@ -273,7 +279,7 @@ var renderers = map[LT]string{
 	"Denom": "GVal.nat %s", "Acc": "GVal.nat %s", "Coin": "GVal.coin %s", "Bid": "GVal.bid %s",
 	"Addr": "GVal.addr %s", "Status": "GVal.status %s", "BidType": "GVal.bidType %s",
 	"Auction": "GVal.auction %s", "VQ": "GVal.vq %s", "List Time": "GVal.ints %s",
-	"List VS": "GVal.sched %s", "MInfo": "GVal.minfo %s", "List AllowedArg": "GVal.allowed %s", "AllowedArg": "GVal.allowed1 %s",
+	"List VS": "GVal.sched %s", "MInfo": "GVal.minfo %s", "Params": "GVal.params %s", "List AllowedArg": "GVal.allowed %s", "AllowedArg": "GVal.allowed1 %s",
 }
 
 // aliasSpec: a Go variable that is a POINTER obtained from / stored into a map entry
